@@ -21,8 +21,34 @@ fn check_message(lens: &[usize], seed: u64) -> Result<(), (String, String)> {
         .enumerate()
         .map(|(i, l)| rc::pattern(*l, (i as u64 + 1) * 1000003 + *l as u64, seed))
         .collect();
+    check_frames(&frames, format!("message with frame lengths {:?}", lens))
+}
+
+/// The content family: frame bodies over the alphabet of bytes that mean something to the
+/// codec when they stand in a header position (flags 00/01/02/04, ff of the greeting).
+const CONTENT_ALPHABET: [u8; 5] = [0x00, 0x01, 0x02, 0x04, 0xff];
+
+fn content_frames(max_len: usize) -> Vec<Vec<u8>> {
+    let mut out: Vec<Vec<u8>> = vec![vec![]];
+    let mut layer: Vec<Vec<u8>> = vec![vec![]];
+    for _ in 0..max_len {
+        let mut next = Vec::new();
+        for f in &layer {
+            for b in CONTENT_ALPHABET {
+                let mut g = f.clone();
+                g.push(b);
+                next.push(g);
+            }
+        }
+        out.extend(next.iter().cloned());
+        layer = next;
+    }
+    out
+}
+
+fn check_frames(frames: &[Vec<u8>], what: String) -> Result<(), (String, String)> {
+    let frames: Vec<Vec<u8>> = frames.to_vec();
     let want = rc::encode_message(&frames);
-    let what = format!("message with frame lengths {:?}", lens);
     // library encode == reference encode (the encoding is canonical under the statement)
     let mut c = Codec::new();
     let mut out = BytesMut::new();
@@ -247,6 +273,124 @@ fn handshake_scenario(ty: Ty, identity: Option<Vec<u8>>) -> Verdict {
     e3::finish(v)
 }
 
+/// (d) what a sending socket writes for one application message: exactly the RFC-23
+/// encoding of (envelope +) message, whatever the transport accepts per write call.
+fn wire_scenario(ty: Ty, lens: &[usize], limit: Option<usize>, seed: u64) -> Verdict {
+    world::reset(world::WorldCfg { select: false, ..Default::default() });
+    let c = e3::raw_conn("p");
+    c.send(&rc::handshake(ty.peer_type(), Some(b"ID0")));
+    match ty {
+        Ty::Pub => c.send(&rc::encode_message(&[vec![1u8]])),
+        Ty::Rep => c.send(&rc::encode_message(&[vec![], b"q".to_vec()])),
+        _ => {}
+    }
+    if let Some(k) = limit {
+        world::set_wmode(c.from_lib, world::WMode::Limit(k));
+    }
+    let frames: Vec<Vec<u8>> = lens
+        .iter()
+        .enumerate()
+        .map(|(i, l)| rc::pattern(*l, (i as u64 + 1) * 1000003 + *l as u64, seed))
+        .collect();
+    let mut wire_m = frames.clone();
+    let mut app_m = frames.clone();
+    match ty {
+        Ty::Req | Ty::Rep => wire_m.insert(0, vec![]),
+        Ty::Router => app_m.insert(0, b"ID0".to_vec()),
+        _ => {}
+    }
+    let sock = AnySocket::new(ty, None);
+    let be = sock.backend();
+    world::spawn_app("app", async move {
+        let mut sock = sock;
+        let r = e3::attach_raw(be, c).await;
+        world::log(format!("attach -> {}", e3::ok_or_err(&r)));
+        match ty {
+            Ty::Pub => world::idle().await,
+            Ty::Rep => {
+                let r = sock.recv().await;
+                world::log(format!("recv -> {}", e3::show_result(&r)));
+            }
+            _ => {}
+        }
+        let r = sock.send(e1::msg(&app_m)).await;
+        world::log(format!("send -> {}", e3::ok_or_err(&r)));
+        world::idle().await;
+        world::set_cond("sent");
+        drop(sock);
+    });
+    let end = world::run(2_000_000);
+    let mut v = Verdict::default();
+    if end != world::RunEnd::Quiescent {
+        v.truncated = true;
+    }
+    let what = format!("{} sending a message with frame lengths {:?} (transport accepts {} per write)", ty.name(), lens, limit.map(|k| format!("{} B", k)).unwrap_or("everything".into()));
+    let log = world::log_snapshot();
+    let tap = c.tap();
+    let d = rc::decode_stream(&tap, true);
+    let app_start = d.items.iter().find(|(it, _)| matches!(it, RItem::Command { .. })).map(|(_, e)| *e);
+    if !log.iter().any(|l| l.contains("send -> Ok")) {
+        v.violate("wire/send-failed", format!("{}: send did not return Ok: {:?}", what, log));
+    } else if let Some(st) = app_start {
+        let got = &tap[st..];
+        let want = rc::encode_message(&wire_m);
+        if got != &want[..] {
+            let at = got.iter().zip(want.iter()).position(|(a, b)| a != b).unwrap_or(got.len().min(want.len()));
+            v.violate(
+                "wire/bytes-differ-from-rfc-encoding",
+                format!("{}: {} application bytes on the wire, RFC-23 encoding has {}; first difference at offset {}", what, got.len(), want.len(), at),
+            );
+        }
+    } else {
+        v.violate("wire/no-ready", format!("{}: no READY on the wire", what));
+    }
+    v.outcome_hash = rc::fnv(&tap[tap.len().min(64)..]) ^ world::hash_log(&e3::canon_log());
+    e3::finish(v)
+}
+
+type Viol = Mutex<Vec<(String, String, serde_json::Value)>>;
+
+/// every message of 1..=nmax frames drawn from `cf`
+fn sweep_content(cf: &[Vec<u8>], nmax: u32, threads: usize, viol: &Viol, evaluated: &AtomicU64) -> u64 {
+    let nf = cf.len() as u64;
+    let mut starts = vec![0u64];
+    for n in 1..=nmax {
+        starts.push(starts.last().unwrap() + nf.pow(n));
+    }
+    let total = *starts.last().unwrap();
+    let next = AtomicU64::new(0);
+    std::thread::scope(|sc| {
+        for _ in 0..threads {
+            sc.spawn(|| loop {
+                let base = next.fetch_add(4096, Ordering::Relaxed);
+                if base >= total {
+                    break;
+                }
+                let hi = (base + 4096).min(total);
+                for i in base..hi {
+                    let n = (1..=nmax as usize).find(|n| i < starts[*n]).unwrap();
+                    let mut j = i - starts[n - 1];
+                    let mut frames: Vec<Vec<u8>> = Vec::with_capacity(n);
+                    for _ in 0..n {
+                        frames.push(cf[(j % nf) as usize].clone());
+                        j /= nf;
+                    }
+                    if let Err((c, m)) = check_frames(&frames, format!("message with frames {}", rc::show_frames(&frames))) {
+                        let mut g = viol.lock().unwrap();
+                        if g.len() < 64 {
+                            g.push((c, m, json!({"engine":"E1","kind":"content","frames": frames.iter().map(|f| rc::hex(f)).collect::<Vec<_>>()})));
+                        }
+                    }
+                }
+                evaluated.fetch_add(hi - base, Ordering::Relaxed);
+            });
+        }
+    });
+    total
+}
+
+const WIRE_TYPES: [Ty; 6] = [Ty::Push, Ty::Dealer, Ty::Req, Ty::Pub, Ty::Router, Ty::Rep];
+
 pub fn run(tier: Tier, replay: Option<String>) -> i32 {
     world::install_panic_hook();
     let mut ck = Check::new("C01", tier, "model_checking");
@@ -301,7 +445,7 @@ pub fn run(tier: Tier, replay: Option<String>) -> i32 {
         }
     }
     let next = AtomicU64::new(0);
-    let viol: Mutex<Vec<(String, String, serde_json::Value)>> = Mutex::new(Vec::new());
+    let viol: Viol = Mutex::new(Vec::new());
     let evaluated = AtomicU64::new(0);
     std::thread::scope(|sc| {
         for _ in 0..ck.threads {
@@ -317,7 +461,15 @@ pub fn run(tier: Tier, replay: Option<String>) -> i32 {
             });
         }
     });
-    let n_msgs = grids.len();
+    // (a') content family: every message of <= 3 frames whose bodies are words over the
+    // header-like alphabet (contents must never influence framing)
+    let mut n_content = sweep_content(&content_frames(3), 3, ck.threads, &viol, &evaluated);
+    if tier == Tier::Thorough {
+        n_content += sweep_content(&content_frames(5), 2, ck.threads, &viol, &evaluated);
+        n_content += sweep_content(&content_frames(2), 4, ck.threads, &viol, &evaluated);
+        n_content += sweep_content(&content_frames(1), 6, ck.threads, &viol, &evaluated);
+    }
+    let n_msgs = grids.len() + n_content as usize;
     // (b) greetings
     let mut n_greet = 0;
     for version in [(1u8, 0u8), (2, 1), (3, 0), (3, 1), (4, 0)] {
@@ -337,7 +489,7 @@ pub fn run(tier: Tier, replay: Option<String>) -> i32 {
     ];
     for t in all_types {
         let ty: zeromq::SocketType = t.parse().unwrap();
-        for idlen in [None, Some(0usize), Some(1), Some(200), Some(226), Some(227), Some(228), Some(255)] {
+        for idlen in std::iter::once(None).chain((0usize..=255).map(Some)) {
             let props: Vec<(String, Vec<u8>)> = idlen
                 .map(|l| vec![("Identity".to_string(), rc::pattern(l, 7, seed))])
                 .unwrap_or_default();
@@ -355,28 +507,67 @@ pub fn run(tier: Tier, replay: Option<String>) -> i32 {
     // (c) the bytes each socket type really writes on a connection
     let mut jobs = Vec::new();
     for ty in ALL_TYPES {
-        for id in [None, Some(1usize), Some(255)] {
+        for id in std::iter::once(None).chain((1usize..=255).map(Some)) {
             let idv = id.map(|l| rc::pattern(l, 11, seed).iter().map(|b| b | 1).collect::<Vec<u8>>());
             let idv2 = idv.clone();
+            let special = matches!(id, None | Some(1) | Some(255));
             jobs.push(e3::job(
                 format!("C01/handshake/{}/id{:?}", ty.name(), id),
                 json!({"scenario":"handshake","type":ty.name(),"identity_len":id, "seed": seed}),
-                tier.pick(1, 2),
+                if special { tier.pick(1, 2) } else { tier.pick(0, 1) },
                 200_000,
                 move || handshake_scenario(ty, idv2.clone()),
             ));
         }
     }
     let n_hs = jobs.len();
+    // (d) application messages through the sending sockets
+    let gs: [usize; 5] = [0, 1, 255, 256, 65536];
+    let mut wire_msgs: Vec<Vec<usize>> = Vec::new();
+    for a in gs {
+        wire_msgs.push(vec![a]);
+        for b in gs {
+            wire_msgs.push(vec![a, b]);
+        }
+    }
+    if tier == Tier::Thorough {
+        for a in [0usize, 255, 256] {
+            for b in [0usize, 255, 256] {
+                for c in [0usize, 255, 256, 65535] {
+                    wire_msgs.push(vec![a, b, c]);
+                }
+            }
+        }
+        wire_msgs.push(vec![1 << 20, 0, (1 << 20) + 1]);
+    }
+    let mut n_wire = 0usize;
+    for ty in WIRE_TYPES {
+        for lens in &wire_msgs {
+            let total: usize = lens.iter().sum();
+            for limit in [None, Some(if total > 10_000 { 4093usize } else { 3 })] {
+                let lens2 = lens.clone();
+                n_wire += 1;
+                jobs.push(e3::job(
+                    format!("C01/wire/{}/{:?}/{:?}", ty.name(), lens, limit),
+                    json!({"scenario":"wire","type":ty.name(),"lens":lens,"limit":limit,"seed":seed}),
+                    tier.pick(1, 2),
+                    50_000,
+                    move || wire_scenario(ty, &lens2, limit, seed),
+                ));
+            }
+        }
+    }
     e3::run_jobs_into(&mut ck, jobs, false);
     let evals = evaluated.load(Ordering::Relaxed) + n_greet + n_ready + ck.coverage.get("e3_executions").and_then(|v| v.as_u64()).unwrap_or(0);
     ck.cov("evaluations", evals);
-    ck.cov("distinct_nontrivial", (n_msgs + n_greet as usize + n_ready as usize + n_hs) as u64);
+    ck.cov("distinct_nontrivial", (n_msgs + n_greet as usize + n_ready as usize + n_hs + n_wire) as u64);
     ck.cov("messages_checked", n_msgs as u64);
     ck.cov("greetings_checked", n_greet);
     ck.cov("ready_encodings_checked", n_ready);
     ck.cov("handshake_scenarios", n_hs as u64);
-    ck.cov("rule", format!("(a) every message whose frame lengths are in G^N, G={:?}, N<=3 (thorough: + MiB sizes for N<=2, {{0,1,255,256,257}}^4, all splits of 600 bytes) — each distinct length vector is a distinct case and non-trivial (encode, reference decode, library decode all run); (b) 5 versions x 3 mechanisms x as-server greetings; 12 socket types x 8 identity sizes READY encodings; (c) the bytes each of the 9 socket types writes on an attached connection for identity none/1 B/255 B under all schedules with <= {} deviations. Frame contents are a pattern keyed by VERIF_SEED (contents never influence codec control flow).", G, tier.pick(1, 2)));
+    ck.cov("socket_wire_scenarios", n_wire as u64);
+    ck.cov("content_family_messages", n_content);
+    ck.cov("rule", format!("(a) every message whose frame lengths are in G^N, G={:?}, N<=3 (thorough: + MiB sizes for N<=2, {{0,1,255,256,257}}^4, all splits of 600 bytes) — each distinct length vector is a distinct case and non-trivial (encode, reference decode, library decode all run); (b) 5 versions x 3 mechanisms x as-server greetings; 12 socket types x every identity length 0..=255 (and none) READY encodings; (c) the bytes each of the 9 socket types writes on an attached connection for no identity and every identity length 1..=255 (all schedules with <= {} deviations for none/1 B/255 B, one fewer for the other lengths); (a') every message of <= 3 frames whose bodies are words of length <= 3 over the header-like bytes {{00,01,02,04,ff}} (thorough: + <= 2 frames of length <= 5, <= 4 frames of length <= 2, <= 6 frames of length <= 1); (d) PUSH/DEALER/REQ/PUB/ROUTER/REP each sending every message with frame lengths in {{0,1,255,256,65536}}^(1..2) (thorough: + 3-frame and MiB messages) over a transport that accepts everything or only 3 B / 4093 B per write: application bytes on the wire == RFC-23 encoding of envelope + message. Other frame contents are a pattern keyed by VERIF_SEED (contents never influence codec control flow).", G, tier.pick(1, 2)));
     ck.cov("exhaustive", true);
     ck.cov("traces_validated_against_impl", evals);
     ck.sample(json!({"message_frame_lengths": [255, 256, 0], "rfc_encoding_prefix": rc::hex(&rc::encode_message(&[vec![1u8; 255], vec![2u8; 256], vec![]])[..2])}));
@@ -392,6 +583,10 @@ fn run_replay(path: &str) -> i32 {
         Some("message") => {
             let lens: Vec<usize> = r["lens"].as_array().unwrap().iter().map(|x| x.as_u64().unwrap() as usize).collect();
             check_message(&lens, r["seed"].as_u64().unwrap_or(0))
+        }
+        Some("content") => {
+            let frames: Vec<Vec<u8>> = r["frames"].as_array().unwrap().iter().map(|x| rc::unhex(x.as_str().unwrap())).collect();
+            check_frames(&frames, format!("message with frames {}", rc::show_frames(&frames)))
         }
         Some("greeting") => check_greeting(
             (r["version"][0].as_u64().unwrap() as u8, r["version"][1].as_u64().unwrap() as u8),
@@ -411,6 +606,11 @@ fn run_replay(path: &str) -> i32 {
                 return crate::replay::replay_e3(&v, |p| {
                     let ty = Ty::from_name(p["type"].as_str()?)?;
                     let seed = p["seed"].as_u64().unwrap_or(0);
+                    if p["scenario"] == "wire" {
+                        let lens: Vec<usize> = p["lens"].as_array()?.iter().map(|x| x.as_u64().unwrap() as usize).collect();
+                        let limit = p["limit"].as_u64().map(|x| x as usize);
+                        return Some(std::sync::Arc::new(move || wire_scenario(ty, &lens, limit, seed)) as zvcore::explore::Scenario);
+                    }
                     let id = p["identity_len"].as_u64().map(|l| rc::pattern(l as usize, 11, seed).iter().map(|b| b | 1).collect::<Vec<u8>>());
                     Some(std::sync::Arc::new(move || handshake_scenario(ty, id.clone())) as zvcore::explore::Scenario)
                 });
